@@ -18,6 +18,7 @@ import (
 	gotime "time"
 
 	"github.com/jotaen/klog/klog/parser"
+	kjson "github.com/jotaen/klog/klog/parser/json"
 )
 
 const cwdPrefix = "/proc/self/cwd/"
@@ -104,6 +105,17 @@ func jsonRun(pretty string, pairs []string) string {
 func init() {
 	register("jsonout-run", func(a []string) string { return jsonRun(a[0], a[1:]) })
 	register("jsonout-multi", func(a []string) string { return jsonRun(a[0], a[1:]) })
+
+	// json.ToJson called directly: the origin of the errors is an arbitrary byte string
+	register("jsonout-api", func(a []string) string {
+		origin, text := argBytes(a[1]), argBytes(a[2])
+		rs, _, errs := parser.NewSerialParser().Parse(text)
+		for i, e := range errs {
+			errs[i] = e.SetOrigin(origin)
+		}
+		out := kjson.ToJson(rs, errs, a[0] == "1")
+		return "ok 0 " + hx(out+"\n") + " " + ownErrors(text)
+	})
 
 	register("jsonout-terminal", func(a []string) string {
 		path, text := argBytes(a[0]), argBytes(a[1])
